@@ -305,6 +305,20 @@ func (s *stickyW) classify(fn *ssa.Function, ret *ssa.Return, v ssa.Value, ep st
 	if ep != "" && ssau.Path(v) == ep {
 		return "returns the sticky field", true
 	}
+	// a dominating store of the same value into the sticky field
+	if ep != "" {
+		for _, b := range fn.Blocks {
+			for _, in := range b.Instrs {
+				st, ok := in.(*ssa.Store)
+				if !ok || st.Val != v || ssau.Path(st.Addr) != "&"+ep {
+					continue
+				}
+				if b == ret.Block() || b.Dominates(ret.Block()) {
+					return "stored into the sticky field before returning", true
+				}
+			}
+		}
+	}
 	switch x := v.(type) {
 	case *ssa.Call:
 		if sameReceiver(fn, x.Common()) {
@@ -325,20 +339,6 @@ func (s *stickyW) classify(fn *ssa.Function, ret *ssa.Return, v ssa.Value, ep st
 	}
 	if t := freshErrorType(v); t == "UsageError" && fn.Name() == "Finish" {
 		return "Finish usage-error exemption (property text)", true
-	}
-	// a dominating store of the same value into the sticky field
-	if ep != "" {
-		for _, b := range fn.Blocks {
-			for _, in := range b.Instrs {
-				st, ok := in.(*ssa.Store)
-				if !ok || st.Val != v || ssau.Path(st.Addr) != "&"+ep {
-					continue
-				}
-				if b == ret.Block() || b.Dominates(ret.Block()) {
-					return "stored into the sticky field before returning", true
-				}
-			}
-		}
 	}
 	if t := freshErrorType(v); t != "" {
 		return "returns a fresh *" + t + " without storing it in the sticky field", false
